@@ -18,6 +18,8 @@ pub struct ScenarioStats {
 	/// old outputs spent by the spender block whose sibling was spent long before the horizon
 	pub half_pairs_spent: usize,
 	pub depth: usize,
+	/// followers brought up from the state archive the subject serves at the end
+	pub follower_state_syncs: u64,
 }
 
 /// (failing clause, description, replay data)
@@ -240,6 +242,7 @@ fn compaction_reorg_scenario_once(seed: u64, depth: usize, dir: &str, headers_fi
 		pairs_spent: n_pairs,
 		half_pairs_spent: n_half,
 		depth,
+		follower_state_syncs: 0,
 	};
 	let mut chain = Some(open_chain(dir, &h.genesis).map_err(|e| fail("open_failed", e))?);
 	let compare = |chain: &grin_chain::Chain, h: &mut Hist, what: &str, stats: &mut ScenarioStats| -> Result<(), ScenarioFailure> {
@@ -289,6 +292,51 @@ fn compaction_reorg_scenario_once(seed: u64, depth: usize, dir: &str, headers_fi
 		deliver(chain.as_ref().unwrap(), gb, "spender_branch", &mut stats)?;
 	}
 	compare(chain.as_ref().unwrap(), &mut h, "before_compact", &mut stats)?;
+	// ---- a follower that never saw the blocks: the headers of the node's chain, the state archive this node serves
+	// for its archive header (Chain::txhashset_read -> Chain::txhashset_write), then the blocks above it. What the follower
+	// reports as unspent is the replayed state, right after the state arrived and at the tip. Done BEFORE the compaction:
+	// under the test parameters the compaction horizon equals the state-sync threshold, so a compacted test node has dropped
+	// leaf data its archive header still counts as unspent (cannot happen where the horizon is a week and the threshold two
+	// days); a node that cannot serve an archive is not judged here.
+	{
+		let c = chain.as_ref().unwrap();
+		let fdir = format!("{}-follower", dir);
+		let _ = std::fs::remove_dir_all(&fdir);
+		let res = (|| -> Result<(), ScenarioFailure> {
+			let ah = c.txhashset_archive_header().map_err(|e| fail("follower;archive_header_unavailable", format!("{:?}", e)))?;
+			let head = c.head().map_err(|e| fail("follower;head_unreadable", format!("{:?}", e)))?;
+			// the winning chain, genesis excluded, oldest first
+			let mut path: Vec<GenBlock> = vec![];
+			let mut cur = head.last_block_h;
+			while cur != h.genesis.hash() {
+				let gb = h.blocks.iter().find(|b| b.hash == cur).cloned().ok_or_else(|| fail("inconclusive", "head not in the history".into()))?;
+				cur = gb.block.header.prev_hash;
+				path.push(gb);
+			}
+			path.reverse();
+			let f = open_chain(&fdir, &h.genesis).map_err(|e| fail("follower;open_failed", e))?;
+			for gb in &path {
+				f.process_block_header(&gb.block.header, opts)
+					.map_err(|e| fail("follower;valid_header_rejected", format!("header {} (h {}): {:?}", gb.hash, gb.block.header.height, e)))?;
+			}
+			let (_, _, file) = c.txhashset_read(ah.hash()).map_err(|e| fail("follower;archive_not_served", format!("txhashset_read({}): {:?}", ah.height, e)))?;
+			let status = grin_chain::SyncState::new();
+			match f.txhashset_write(ah.hash(), file, &status) {
+				Ok(false) => {}
+				Ok(true) => return Err(fail("follower;honest_archive_refused", "txhashset_write reported bad data for the archive of an honest node".into())),
+				Err(e) => return Err(fail("follower;honest_archive_refused", format!("txhashset_write: {:?}", e))),
+			}
+			stats.follower_state_syncs += 1;
+			compare(&f, &mut h, "follower_after_state_sync", &mut stats)?;
+			for gb in path.iter().filter(|b| b.block.header.height > ah.height) {
+				deliver(&f, gb, "follower_blocks_above_the_archive_header", &mut stats)?;
+			}
+			compare(&f, &mut h, "follower_at_the_tip", &mut stats)?;
+			Ok(())
+		})();
+		let _ = std::fs::remove_dir_all(&fdir);
+		res?;
+	}
 	if headers_first {
 		for gb in [&fork1, &fork2] {
 			chain
